@@ -61,10 +61,73 @@ func (o WOut) String() string {
 	return s
 }
 
+// genHint lets a generator bias operations with what it knows at generation time (operations stay plain data: the
+// program is still a function of the choice list alone).
+type genHint struct {
+	set        *model.Set // predicted registered set at this point (nil: no bias)
+	last       int        // pool index touched by the previous operation (-1: none)
+	lastMethod string
+}
+
+// related returns the pool indices whose pattern is a proper prefix or extension of pool[i] (same tree branch).
+func related(pool []*model.Pattern, i int) []int {
+	var out []int
+	for j, p := range pool {
+		if j != i && (strings.HasPrefix(p.Raw, pool[i].Raw) || strings.HasPrefix(pool[i].Raw, p.Raw)) {
+			out = append(out, j)
+		}
+	}
+	return out
+}
+
 // genWOp draws one write operation over the pool. tag must be unique for the run.
 func genWOp(s sim.Source, pool []*model.Pattern, methods []string, tag int, allowTrunc bool, badRate int) WOp {
+	return genWOpHint(s, pool, methods, tag, allowTrunc, badRate, genHint{last: -1})
+}
+
+func genWOpHint(s sim.Source, pool []*model.Pattern, methods []string, tag int, allowTrunc bool, badRate int, h genHint) WOp {
 	op := WOp{Method: sim.Pick(s, "m", methods), Pat: s.Intn("pat", len(pool)), Tag: tag}
+	if h.last >= 0 {
+		// half of the time stay on the branch of the previous operation (parent/child nodes of one path)
+		if rel := related(pool, h.last); len(rel) > 0 && s.Intn("related", 2) == 1 {
+			op.Pat = rel[s.Intn("relpick", len(rel))]
+			if model.ValidMethod(h.lastMethod) && s.Intn("samemethod", 4) != 0 {
+				op.Method = h.lastMethod // same per-method tree
+			}
+		}
+	}
 	k := s.Intn("wkind", 20)
+	if h.set != nil {
+		// bias the kind with what is (predicted to be) registered: mostly effective operations
+		present := h.set.Get(op.Method, pool[op.Pat].Raw) != nil
+		if !present {
+			// prefer a method under which the pattern is registered, if any
+			for _, m := range methods {
+				if h.set.Get(m, pool[op.Pat].Raw) != nil && s.Intn("usemethod", 2) == 1 {
+					op.Method, present = m, true
+					break
+				}
+			}
+		}
+		r := s.Intn("biased", 20)
+		switch {
+		case present && r < 9:
+			k = 9 // update
+		case present && r < 15:
+			k = 13 // delete
+		case present:
+			k = 0 // handle (exists)
+		case r < 15:
+			k = 0 // handle
+		case r < 17:
+			k = 9
+		default:
+			k = 13
+		}
+		if allowTrunc && s.Intn("trunc", 16) == 15 {
+			k = 19
+		}
+	}
 	switch {
 	case k < 7:
 		op.Kind = "handle"
